@@ -22,7 +22,7 @@ canon = A.canon_rdr
 
 
 def budget(tier):
-    return 60 if tier == "quick" else 800       # groups
+    return 60 if tier == "quick" else 3000       # groups
 
 
 def variants(r, nent, extract_pat):
